@@ -179,6 +179,18 @@ def gen_formula(rng, big):
     return clauses
 
 
+def add_gadgets(rng, clauses, n, k):
+    """Auxiliary variables that are forced under some assignments of the core and free under others:
+    for a literal l two fresh variables s, t with (l -> s), (l -> t), (s and t -> l), (s or t); always satisfiable on top of the core."""
+    nxt = n
+    for v in rng.sample(range(1, n + 1), min(k, n)):
+        for lit in ((v, -v) if rng.random() < 0.6 else (rng.choice([v, -v]),)):
+            s, t = nxt + 1, nxt + 2
+            nxt += 2
+            clauses += [[-lit, s], [-lit, t], [-s, -t, lit], [s, t]]
+    return nxt
+
+
 def generate(rng, tier):
     big = tier == "thorough"
     if big and rng.random() < 0.003:
@@ -210,9 +222,29 @@ def generate(rng, tier):
         for _ in range(int(n * rng.choice([4.0, 4.3, 4.6]))):
             vs = rng.sample(range(1, n + 1), 3)
             clauses.append([v if rng.random() < 0.5 else -v for v in vs])
+        if rng.random() < 0.5:
+            add_gadgets(rng, clauses, n, rng.randrange(1, 9))
         return {"clauses": clauses, "assumptions": [], "solution_limit": 1, "luby_factor": rng.choice([1, 2, 3]),
-                "max_restarts": 10000, "max_conflicts": 20000, "gc": rng.choice([2, 4, 8, 16]),
-                "decide": {"policy": rng.choice(["random", "vsids"]), "seed": rng.getrandbits(30), "p": 1.0}}
+                "max_restarts": 10000, "max_conflicts": 20000, "gc": rng.choice([2, 4, 8, 16, 2000]),
+                "decay": rng.choice([0.95, 0.5, 0.1, 1e-10, 1e-25]),
+                "decide": {"policy": rng.choice(["random", "vsids", "vsids"]), "seed": rng.getrandbits(30), "p": 1.0}}
+    if rng.random() < 0.004:
+        # a propagation chain thousands of literals long behind one conflict (size, not search effort)
+        n = rng.choice([1200, 2000, 3000])
+        chain = list(range(1, n + 1))
+        if rng.random() < 0.3:
+            chain.reverse()  # the far end of the chain carries the low variable numbers
+        clauses = [[-a, b] for a, b in zip(chain, chain[1:])]
+        first, last = chain[0], chain[-1]
+        y, z = n + 1, n + 2
+        if rng.random() < 0.7:  # the chain's end and a later decision y are incompatible: the conflict sits one level above the chain
+            clauses += [[y, first], [-y, -last, z], [-y, -last, -z]]
+        else:
+            clauses += [[-last, y], [-last, -y, z], [-last, -y, -z]]
+        rng.shuffle(clauses)
+        return {"clauses": clauses, "assumptions": [1] if rng.random() < 0.3 else [], "solution_limit": 1, "luby_factor": 100,
+                "max_restarts": 10000, "max_conflicts": 100000, "gc": 2000,
+                "decide": {"policy": rng.choice(["vsids", "low", "high"]), "seed": rng.getrandbits(30), "p": 1.0}}
     clauses = gen_formula(rng, big)
     if rng.random() < 0.01:
         clauses = []  # the empty formula
@@ -232,6 +264,8 @@ def generate(rng, tier):
     if clauses and rng.random() < 0.03:
         clauses.append([])  # empty clause
     nv = max((abs(l) for c in clauses for l in c), default=1)
+    if clauses and 3 <= nv <= 12 and rng.random() < 0.15:
+        nv = add_gadgets(rng, clauses, nv, 1)
     assumptions = []
     if rng.random() < 0.4:
         for _ in range(rng.choice([1, 1, 2, 3])):
@@ -245,6 +279,9 @@ def generate(rng, tier):
         "max_restarts": rng.choice([0, 1, 3, 10000, 10000]),
         "max_conflicts": rng.choice([1, 3, 10, 100000, 100000, 100000]),
         "gc": rng.choice([2, 8, 64, 2000, 2000]),
+        # VSIDS decay knob: with 0.95 activities pass 1e100 after ~4500 conflicts and overflow to inf after ~13800; smaller
+        # values bring those states (rescaling code, infinite activities) into runs of a few conflicts
+        "decay": rng.choice([0.95, 0.95, 0.95, 0.5, 0.1, 1e-10, 1e-25]),
         "decide": {"policy": rng.choice(["vsids", "vsids", "random", "random", "low", "high", "prefix"]), "seed": rng.getrandbits(30),
                    "p": rng.choice([1.0, 0.5, 0.2])},
         # equal clauses are passed as ONE shared list object (`[clause] * 2` style) or as tuples
@@ -319,24 +356,28 @@ class Sink:
 _patched: dict = {}
 
 
-def solve_sat_with_gc(threshold: int):
-    """solve_sat rebuilt with the literal 2000 of reduce_db replaced (no repo change); None if the literal is not found."""
+def solve_sat_with_gc(threshold: int, decay: float = 0.95):
+    """solve_sat rebuilt with the literal 2000 of reduce_db and/or the VSIDS decay literal 0.95 of decay_activity replaced
+    (no repo change); None if a literal to be replaced is not found."""
     m = solvor_mod("sat")
     f = m.solve_sat
-    if threshold == 2000:
+    if threshold == 2000 and decay == 0.95:
         return f
-    key = (id(f), threshold)
+    key = (id(f), threshold, decay)
     if key in _patched:
         return _patched[key]
     outer = f.__code__
     new_consts = []
-    found = False
+    found = set()
     for c in outer.co_consts:
-        if isinstance(c, types.CodeType) and c.co_name == "reduce_db" and 2000 in c.co_consts:
+        if isinstance(c, types.CodeType) and c.co_name == "reduce_db" and 2000 in c.co_consts and threshold != 2000:
             c = c.replace(co_consts=tuple(threshold if x == 2000 and isinstance(x, int) else x for x in c.co_consts))
-            found = True
+            found.add("gc")
+        if isinstance(c, types.CodeType) and c.co_name == "decay_activity" and 0.95 in c.co_consts and decay != 0.95:
+            c = c.replace(co_consts=tuple(decay if isinstance(x, float) and x == 0.95 else x for x in c.co_consts))
+            found.add("decay")
         new_consts.append(c)
-    if not found:
+    if found != ({"gc"} if threshold != 2000 else set()) | ({"decay"} if decay != 0.95 else set()):
         _patched[key] = None
         return None
     g = types.FunctionType(outer.replace(co_consts=tuple(new_consts)), f.__globals__, f.__name__, f.__defaults__, f.__closure__)
@@ -379,7 +420,7 @@ def build_clauses(case):
 
 def run_once(case, use_hooks=True, decide=None):
     m = solvor_mod("sat")
-    fn = solve_sat_with_gc(case.get("gc", 2000))
+    fn = solve_sat_with_gc(case.get("gc", 2000), case.get("decay", 0.95))
     gc_ok = fn is not None
     if fn is None:
         fn = m.solve_sat
@@ -513,7 +554,7 @@ def execute(case) -> Outcome:
     ref = reference(case)
     r = run_once(case)
     shipped = (not r["hooked"]) or r["sink"].overrides == 0
-    shipped = shipped and case.get("gc", 2000) == 2000
+    shipped = shipped and case.get("gc", 2000) == 2000 and case.get("decay", 0.95) == 0.95
     judge(case, r, o, "run", ref, shipped)
     s = r["sink"]
     o.steps = r["steps"]
@@ -521,6 +562,8 @@ def execute(case) -> Outcome:
         o.fault("decision_override", s.overrides)
     if case.get("gc", 2000) != 2000 and r["gc_ok"]:
         o.fault("gc_knob")
+    if case.get("decay", 0.95) != 0.95 and r["gc_ok"]:
+        o.fault("vsids_decay_knob")
     if r["res"] is not None and r["res"].status.name == "MAX_ITER":
         o.fault("budget_cut")
     if s.restarts:
@@ -540,7 +583,7 @@ def execute(case) -> Outcome:
     o.nontrivial = s.conflicts >= 1 if r["hooked"] else (r["res"] is not None and r["res"].iterations >= 2)
     # cross-schedule invariant: the verdict under the shipped schedule (no overrides, default GC) must agree
     if o.violations == [] and not shipped and r["res"] is not None and r["res"].status.name != "MAX_ITER":
-        c2 = dict(case, gc=2000)
+        c2 = dict(case, gc=2000, decay=0.95)
         r2 = run_once(c2, use_hooks=True, decide={"policy": "vsids"})
         judge(c2, r2, o, "shipped-schedule run", ref, True)
         if r2["res"] is not None and r2["res"].status.name != "MAX_ITER" and not r2["exceeded"]:
@@ -564,6 +607,8 @@ def shrink(case):
         yield shr.with_path(case, ("iterables",), None)
     if case.get("gc", 2000) != 2000:
         yield shr.with_path(case, ("gc",), 2000)
+    if case.get("decay", 0.95) != 0.95:
+        yield shr.with_path(case, ("decay",), 0.95)
     yield from shr.list_shrinks(case, ("clauses",), 1)
     if case["assumptions"]:
         yield from shr.list_shrinks(case, ("assumptions",), 0)
